@@ -429,6 +429,7 @@ func (c *fsClient) runEntry(fn *ssa.Function, runs *[]fsRun) {
 	c.entry = funcKey(fn)
 	x := newExec(c.p, c)
 	x.NormSubslice = true
+	x.Comprehend = true
 	ps := c.paramTerms(fn)
 	var root *Term
 	if len(ps) > 0 {
@@ -483,6 +484,7 @@ func (c *fsClient) runProtocol(runs *[]fsRun) {
 	c.entry = "Addition protocol"
 	x := newExec(c.p, c)
 	x.NormSubslice = true
+	x.Comprehend = true
 	stp := mk("param", "(*Stack).NewAddition.st", newAdd.Params[0].Type())
 	wr := mk("param", "(*Addition).Add.write", add.Params[1].Type())
 	st0 := c.freshState(stp)
